@@ -5,7 +5,7 @@ import asyncio
 
 def make_site(loop, hlog, extra=None):
     """Site with:
-    /r   configurable by request payload  b"d=<delay>;c=<code int>;p=<payload text>;nr=<no_response int>;x=raise|crash"
+    /r   configurable by request payload  b"d=<delay>;c=<code int>;p=<payload text>;nr=<no_response int>;x=raise|crash|unser;tt=cls|inst"
     hlog: list receiving dicts {ev, t, remote, mid, token, code, path, payload}
     """
     import aiocoap
@@ -44,6 +44,10 @@ def make_site(loop, hlog, extra=None):
                     cls = {128: error.BadRequest, 132: error.NotFound, 163: error.ServiceUnavailable}[int(cfg.get("c", "128"))]
                     hlog.append(dict(entry, ev="exit", t=loop.time()))
                     raise cls(cfg.get("p", "ok"))
+                if cfg.get("x") == "unser":
+                    # a Message that cannot be put on the wire (text where bytes belong)
+                    hlog.append(dict(entry, ev="exit", t=loop.time()))
+                    return aiocoap.Message(code=aiocoap.CONTENT, payload="text, not bytes")
                 if cfg.get("x") == "crash":
                     hlog.append(dict(entry, ev="exit", t=loop.time()))
                     raise RuntimeError("handler crashed")
@@ -52,6 +56,10 @@ def make_site(loop, hlog, extra=None):
                     m.code = aiocoap.numbers.codes.Code(int(cfg["c"]))
                 if "nr" in cfg:
                     m.opt.no_response = int(cfg["nr"])
+                if "tt" in cfg:
+                    # transport tuning of the response: the class itself (as the library's own command line client
+                    # and its deprecation texts pass it) or an instance
+                    m.transport_tuning = aiocoap.Unreliable if cfg["tt"] == "cls" else aiocoap.Unreliable()
                 hlog.append(dict(entry, ev="exit", t=loop.time()))
                 return m
             except asyncio.CancelledError:
